@@ -151,7 +151,7 @@ theorem trafoEntry_closed (norm : Rat) (i j : Nat) (hck : ck.length = q + 1) (hj
 
 include hτ hy in
 /-- fictitious basis functions to the left of the knot vector get coefficient 0 -/
-theorem extCoef_neg (j : Nat) (i : Int) (hi : i < 0) (hpos : 0 < rho.length)
+theorem extCoef_neg (j : Nat) (i : Int) (hi : i < 0) (_hpos : 0 < rho.length)
     (hck : ck.length = q + 1) (hj : j + p + 1 < knots.length)
     (hsorted : rho.Pairwise (· ≤ ·))
     (hmem : ∀ a b, a < knots.length → b < ck.length → getK knots a + getK ck b ∈ rho) :
